@@ -110,10 +110,12 @@ Print Assumptions C16_compose_injective.
    * Uri-Host present — any characters, percent-escaped, reserved or non-ASCII: unconditional, except the NAMED RESIDUE of a
      decoded host that is itself the text of an IP address or passes the IPv4-literal test (coap://1%2E2.3.4/, coap://%3A%3A1/),
      where 6.5 legitimately composes a literal (kept as the two hypotheses of the inner implication).
-   * no Uri-Host: fixed point for a bracketed IPv6 remote [t][:port] (t a text ipaddress prints: ip6_text_ok) and for an IPv4
-     literal remote host[:port] in canonical spelling. RESIDUE, correspondence + oracle only: a remote whose hostinfo keeps a
-     non-canonical spelling from the URI (leading zeros in the port, empty user info), and network locations with non-ASCII
-     characters (NFKC / Unicode lower-casing are outside the model). *)
+   * no Uri-Host, network location without "[" (IPv4 literal in whatever spelling the URI had: coap://1.2.3.4:0080/, coap://@1.2.3.4/):
+     composition always succeeds and the decomposition is a fixed point — derived from the decomposition itself, no hypothesis
+     on the shape of the remote;
+   * no Uri-Host, bracketed IPv6 remote [t][:port] with t a text ipaddress prints (ip6_text_ok): fixed point.
+     RESIDUE, correspondence + oracle only: what ipaddress prints is the hypothesis ip6_text_ok (so coap://[::1]x:80/ is covered once
+     the remote is written [::1]:80), and network locations with non-ASCII characters (NFKC / Unicode lower-casing outside the model). *)
 Theorem C16_uri_options_uri : forall ip uri s hi uh p q, valid_str uri = true ->
   set_request_uri ip uri true = Ok (DRequest s hi uh p q) ->
   existsb (beqb s) coap_schemes = true /\ p <> [[]] /\ q <> [[]] /\ forallb valid_str p = true /\ forallb valid_str q = true /\
@@ -125,12 +127,11 @@ Theorem C16_uri_options_uri : forall ip uri s hi uh p q, valid_str uri = true ->
          quote quote_for_host_chars h = Ok e /\
          set_request_uri ip u' true = Ok (DRequest s (e ++ port_text port) (Some h) p q))
   | None =>
+      exists u', get_request_uri ip (opts_of (DRequest s hi None p q)) = Ok u' /\
+      (forall netloc path query, urlsplit ip uri = Ok (s, netloc, path, query, []) -> mem 91 netloc = false ->
+         hi = netloc /\ set_request_uri ip u' true = Ok (DRequest s hi None p q)) /\
       (forall t p0, hi = 91 :: t ++ 93 :: port_text p0 -> ip6_text_ok ip t -> port_ok p0 ->
-         exists u', get_request_uri ip (opts_of (DRequest s hi None p q)) = Ok u' /\
-                    set_request_uri ip u' true = Ok (DRequest s hi None p q)) /\
-      (forall h0 p0, hi = h0 ++ port_text p0 -> regular_host h0 = true -> is_ipv4_literal h0 = Ok true -> port_ok p0 ->
-         exists u', get_request_uri ip (opts_of (DRequest s hi None p q)) = Ok u' /\
-                    set_request_uri ip u' true = Ok (DRequest s hi None p q))
+         set_request_uri ip u' true = Ok (DRequest s hi None p q))
   end.
 Proof. exact uri_options_uri. Qed.
 Print Assumptions C16_uri_options_uri.
@@ -158,6 +159,53 @@ Theorem C16_proxy_roundtrip : forall ip uri flag u, set_request_uri ip uri flag 
   u = uri /\ get_request_uri ip (opts_of (DProxy u)) = Ok uri.
 Proof. exact proxy_roundtrip. Qed.
 Print Assumptions C16_proxy_roundtrip.
+
+(* ---- 6.4 step by step, for every accepted URI and both values of set_uri_host: Uri-Path / Uri-Query ARE the percent-decoded
+   segments of the path / query component; no user name / password; the port was numeric, in 0..65535, and stays with the
+   remote: hostinfo is the network location verbatim, or for a bracketed literal the text ipaddress prints joined with the SAME
+   port (the result type has no Uri-Port: the implementation's Uri-Port option is observed by the oracle rule C16:uri-port-set). *)
+Theorem C16_decompose_spec : forall ip uri flag s hi uh p q, set_request_uri ip uri flag = Ok (DRequest s hi uh p q) ->
+  existsb (beqb s) coap_schemes = true /\
+  exists netloc path query hostname port,
+    urlsplit ip uri = Ok (s, netloc, path, query, []) /\ hostname_of netloc = Ok (Some hostname) /\
+    (let '(u, pw) := userinfo_of netloc in truthy u || truthy pw) = false /\
+    unquote_path path = Ok p /\ unquote_query query = Ok q /\
+    port_of netloc = Ok port /\ port_ok port /\ hostportsplit netloc = Ok (Some hostname, port) /\
+    undecided_remote ip s netloc = Ok (s, hi) /\
+    (mem 91 netloc = false -> hi = netloc) /\
+    (mem 91 netloc = true -> exists n, (ip hostname = Ip6 n \/ ip hostname = Ip4 n) /\ hostportjoin n port = Ok hi) /\
+    match uh with
+    | Some h => flag = true /\ mem 91 netloc = false /\ is_ipv4_literal hostname = Ok false /\
+                exists h', unquote hostname = Ok h' /\ h = translate ascii_lowercase h'
+    | None => flag = false \/ mem 91 netloc = true \/ is_ipv4_literal hostname = Ok true
+    end.
+Proof. exact decompose_spec. Qed.
+Print Assumptions C16_decompose_spec.
+
+(* ---- each class of unacceptable text IS rejected, with the documented error: unbalanced / unusable brackets (urlsplit's
+   ValueError), fragment, no host, user info, non-UTF-8 escapes in path / query / host, non-numeric or out-of-range port,
+   bracketed literal ipaddress refuses -> MalformedUrlError; no scheme -> IncompleteUrlError.
+   (The hypotheses [hostname_of netloc = Ok _] exclude only the non-ASCII network locations, which are [Unmodelled].) *)
+Theorem C16_rejects_each_class : forall ip uri flag,
+  (urlsplit ip uri = Raise ValueError -> set_request_uri ip uri flag = Raise MalformedUrlError) /\
+  forall s netloc path query frag, urlsplit ip uri = Ok (s, netloc, path, query, frag) ->
+    (frag <> [] -> set_request_uri ip uri flag = Raise MalformedUrlError) /\
+    (frag = [] -> s = [] -> set_request_uri ip uri flag = Raise IncompleteUrlError) /\
+    (frag = [] -> existsb (beqb s) coap_schemes = true ->
+       (hostname_of netloc = Ok None -> set_request_uri ip uri flag = Raise MalformedUrlError) /\
+       (forall hn, hostname_of netloc = Ok (Some hn) ->
+          ((let '(u, pw) := userinfo_of netloc in truthy u || truthy pw) = true ->
+             set_request_uri ip uri flag = Raise MalformedUrlError) /\
+          ((let '(u, pw) := userinfo_of netloc in truthy u || truthy pw) = false ->
+             ((exists e, unquote_path path = Raise e) \/ (exists e, unquote_query query = Raise e) \/ (exists e, port_of netloc = Raise e) ->
+                set_request_uri ip uri flag = Raise MalformedUrlError) /\
+             (forall p q port, unquote_path path = Ok p -> unquote_query query = Ok q -> port_of netloc = Ok port ->
+                (undecided_remote ip s netloc = Raise ValueError -> set_request_uri ip uri flag = Raise MalformedUrlError) /\
+                (forall r, undecided_remote ip s netloc = Ok r -> flag = true -> mem 91 netloc = false ->
+                   is_ipv4_literal hn = Ok false -> (exists e, unquote hn = Raise e) ->
+                   set_request_uri ip uri flag = Raise MalformedUrlError))))).
+Proof. exact rejects_each_class. Qed.
+Print Assumptions C16_rejects_each_class.
 
 (* ---- rejections: for EVERY string, set_request_uri fails only with the two documented errors; [Unmodelled] marks the inputs
    outside the model (network location with non-ASCII characters) — full strength since the repairs 1c4d498 / 9bbf9d1 *)
@@ -194,6 +242,24 @@ Print Assumptions C16_hostport_join_split_ip6.
 Theorem C16_port_text_roundtrip : forall n, 0 <= n -> parse_dec (print_nat_dec n) = n.
 Proof. exact parse_print_nat_dec. Qed.
 Print Assumptions C16_port_text_roundtrip.
+
+(* the other direction: whatever hostportsplit returns (host without "[" inside, which only junk such as "[a[b]" yields) joins with
+   the returned port into a string that splits into exactly the same pair — join . split is a normal form *)
+Theorem C16_hostport_split_join : forall j h p, hostportsplit j = Ok (Some h, p) -> mem 64 j = false -> mem 91 h = false ->
+  exists j', hostportjoin h p = Ok j' /\ hostportsplit j' = Ok (Some h, p).
+Proof. exact hostport_split_join. Qed.
+Print Assumptions C16_hostport_split_join.
+(* distinct resources never collapse, option sets WITHOUT Uri-Host (authority = the remote's host[:port]) *)
+Theorem C16_compose_injective_hostinfo : forall ip (m1 m2 : request_opts) h1 p1 l1 h2 p2 l2 u,
+  (forall (m : request_opts) h p l, m = m1 /\ h = h1 /\ p = p1 /\ l = l1 \/ m = m2 /\ h = h2 /\ p = p2 /\ l = l2 ->
+     existsb (beqb (r_scheme m)) coap_schemes = true /\ o_proxy_uri m = None /\ o_proxy_scheme m = None /\
+     o_uri_host m = None /\ o_uri_port m = None /\ r_hostinfo m = h ++ port_text p /\ regular_host h = true /\
+     is_ipv4_literal h = Ok l /\ port_ok p /\ o_uri_path m <> [[]] /\ o_uri_query m <> [[]] /\
+     forallb valid_str (o_uri_path m) = true /\ forallb valid_str (o_uri_query m) = true) ->
+  get_request_uri ip m1 = Ok u -> get_request_uri ip m2 = Ok u ->
+  r_scheme m1 = r_scheme m2 /\ r_hostinfo m1 = r_hostinfo m2 /\ o_uri_path m1 = o_uri_path m2 /\ o_uri_query m1 = o_uri_query m2.
+Proof. exact compose_injective_hostinfo. Qed.
+Print Assumptions C16_compose_injective_hostinfo.
 
 (* ---- non-vacuity: concrete, non-trivial instances satisfy the hypotheses and compute to the expected values *)
 Example C16_nonvacuous_roundtrip :
@@ -237,6 +303,17 @@ Proof.
   - cbv zeta. split; [discriminate|]. split; [reflexivity|]. split; [repeat (apply Forall_cons; [reflexivity|]); apply Forall_nil|].
     split; [reflexivity|]. split; vm_compute; reflexivity.
 Qed.
+Example C16_nonvacuous_round5 :
+  (* split -> join -> split on "[FE80::1%Eth0]:0080" and "EXAMPLE.com:" ; coap://@1.2.3.4:0080/x is accepted without Uri-Host with the
+     network location kept verbatim (the fixed-point branch of C16_uri_options_uri needs no shape hypothesis) *)
+  hostportsplit [91; 70; 69; 56; 48; 58; 58; 49; 37; 69; 116; 104; 48; 93; 58; 48; 48; 56; 48] =
+    Ok (Some [102; 101; 56; 48; 58; 58; 49; 37; 69; 116; 104; 48], Some 80) /\
+  hostportsplit [69; 88; 46; 99; 111; 109; 58] = Ok (Some [101; 120; 46; 99; 111; 109], None) /\
+  set_request_uri no_ip (coap ++ [58; 47; 47; 64; 49; 46; 50; 46; 51; 46; 52; 58; 48; 48; 56; 48; 47; 120]) true =
+    Ok (DRequest coap [64; 49; 46; 50; 46; 51; 46; 52; 58; 48; 48; 56; 48] None [[120]] []) /\
+  urlsplit no_ip (coap ++ [58; 47; 47; 104; 58; 120; 47]) = Ok (coap, [104; 58; 120], [47], [], []) /\ port_of [104; 58; 120] = Raise ValueError /\
+  urlsplit no_ip (coap ++ [58; 47; 47; 91; 58; 58; 49; 47]) = Raise ValueError.
+Proof. repeat split; vm_compute; reflexivity. Qed.
 Example C16_nonvacuous_rejections :
   set_request_uri no_ip [47; 47; 104; 47] true = Raise IncompleteUrlError /\                       (* //h/ *)
   set_request_uri no_ip (coap ++ [58; 47; 47; 104; 47; 35; 102]) true = Raise MalformedUrlError /\  (* coap://h/#f *)
